@@ -152,6 +152,9 @@ func main() {
 	if run.N > 0 && run.N < 5000 {
 		fam = run.N / 10
 	}
+	for i := 0; i < 2*fam; i++ {
+		longLivedChain(rnd)
+	}
 	for i := 0; i < fam; i++ {
 		rejoinChain(rnd)
 	}
@@ -183,6 +186,8 @@ func replayLine(l string) {
 		doPlan("range", "-", parseGroup(t[1], t[2]))
 	case "rr":
 		doPlan("rr", "-", parseGroup(t[1], t[2]))
+	case "lchain":
+		replayLongLived(t)
 	case "vplan":
 		g := parseGroup(t[3], t[4])
 		doPlan(t[1], t[2], g)
